@@ -307,6 +307,7 @@ class Result:
         self.data = None
         self.errors = []   # (path tuple, kind, message, extensions, [candidate locations])
         self.calls = []    # resolver invocations in order: (path tuple, typename, field, canon(args))
+        self.fields = []   # every field resolution attempted (incl. __typename and argument-coercion failures)
         self.groups = []   # (path, typename, key, [field names], [arg canon]) for ambiguity analysis
 
 
@@ -392,6 +393,7 @@ def execute(spec, text, payload, world, operation_name=None, root_value=None, op
         for key, nodes in collect(tn, selections).items():
             fname = nodes[0]["name"]["value"]
             if fname == "__typename":
+                res.fields.append(tuple(path + [key]))
                 out[key] = tn
                 continue
             fd = spec.field(tn, fname)
@@ -402,6 +404,7 @@ def execute(spec, text, payload, world, operation_name=None, root_value=None, op
 
     def field(tn, fd, nodes, path, parent):
         locs = [n["loc"][0] for n in nodes]
+        res.fields.append(tuple(path))
         try:
             args = argument_values(spec, fd.get("args", []), nodes[0]["arguments"], variables)
         except GS.Reject as e:
